@@ -32,6 +32,8 @@ def gen(rng, tier):
         cases.append(core.case_from_struct(G.gen_single_bar(rng), Weight=core.weights(i), Repeat=1 + (i % 4 == 1) * 2))
     for i in range(6 if tier == "quick" else 100):
         cases.append(core.case_from_struct(G.gen_twins(rng), Weight=core.weights(i)))
+    for i in range(8 if tier == "quick" else 100):
+        cases.append(core.case_from_struct(G.gen_pinned_near_end(rng), Weight=False))
     for i in range(n2):
         cases.append(core.case_from_struct(G.gen_frame(rng), Weight=core.weights(i), Repeat=1 + (i % 4 == 1)))
     return cases
